@@ -48,7 +48,7 @@ func loadEngine(repo string, cfg BuildConfig, contractDir string) (*Engine, erro
 	prog, spkgs := ssautil.AllPackages(pkgs, ssa.InstantiateGenerics|ssa.GlobalDebug)
 	prog.Build()
 	en := &Engine{prog: prog, pkgs: map[string]*ssa.Package{}, contracts: map[string]*PkgContracts{}, globals: map[*ssa.Global]*Region{}, globalInit: map[*ssa.Global]Cell{}, oblSeq: map[string]int{}, cfgName: cfg.Name, maxSteps: 4000000, maxPaths: 20000, inlineDepthMax: 12,
-		forceInline: map[string]bool{}, inlined: map[string]bool{}, usedContracts: map[string]bool{}, assumedUsed: map[string]bool{}, usedLoops: map[string]bool{}, loopHdrCache: map[*ssa.Function]map[int]int{}, callOrdCache: map[*ssa.Function]map[ssa.Instruction]int{}, usedCuts: map[string]bool{}}
+		forceInline: map[string]bool{}, inlined: map[string]bool{}, usedContracts: map[string]bool{}, assumedUsed: map[string]bool{}, usedLoops: map[string]bool{}, loopHdrCache: map[*ssa.Function]map[int]int{}, callOrdCache: map[*ssa.Function]map[ssa.Instruction]int{}, usedCuts: map[string]bool{}, anchorCache: map[*ssa.Function]*cutAnchorSet{}}
 	for _, p := range spkgs {
 		if p != nil {
 			en.pkgs[p.Pkg.Path()] = p
@@ -130,8 +130,8 @@ func discharge(o *Obligation, timeout time.Duration) (r OblResult) {
 		r.Verdict, r.Backend = "proved", "trivial"
 		return r
 	}
-	if o.Alg {
-		if _, _, isC := asCongruence(o.Goal); isC || o.Goal.op == OAnd {
+	{
+		if _, _, isC := asCongruence(o.Goal); isC || (o.Alg && o.Goal.op == OAnd) {
 			ok, why := AlgProve(o.Facts, o.Goal)
 			if ok {
 				r.Verdict, r.Backend, r.Info = "proved", "alg", why
@@ -142,6 +142,14 @@ func discharge(o *Obligation, timeout time.Duration) (r OblResult) {
 		if os.Getenv("GOVC_ALGONLY") != "" {
 			r.Verdict, r.Backend = "undecided", "alg"
 			return r
+		}
+	}
+	if o.Goal.op == OLe || o.Goal.op == OLt || o.Goal.op == OAnd {
+		if ok, why := LinIntervalProve(o.Facts, o.Goal); ok {
+			r.Verdict, r.Backend, r.Info = "proved", "lin", why
+			return r
+		} else if os.Getenv("GOVC_DEBUG") != "" {
+			r.Info += "lin: " + why + " "
 		}
 	}
 	q := &Query{Facts: o.Facts, Goal: o.Goal, Axioms: o.Axioms}
